@@ -144,4 +144,17 @@ FirstDiffSeg(a, b, segs) ==
                      s == {q \in 1..Len(segs) : segs[q].a < i /\ i <= segs[q].b}
                  IN IF s = {} THEN "(outside-definition)" ELSE segs[CHOOSE q \in s : TRUE].n
 
+(***************************************************************************)
+(* Growth beyond the listed properties: the exception CLASS a refused      *)
+(* keyword construction ends with.  The message cannot be built from       *)
+(* keywords at all (no definition in this mode, a definition that needs    *)
+(* the payload keyword, a variant whose discriminator is missing):         *)
+(* UBXMessageError.  A value its field cannot represent, or a group whose  *)
+(* count attribute is missing: UBXTypeError.                               *)
+(***************************************************************************)
+ConstructClass(b) ==
+    IF b.err = "" THEN "message"
+    ELSE IF b.err \in {"not-keyword-constructible", "needs-payload-keyword"} THEN "UBXMessageError"
+    ELSE IF StartsWith(b.err, "unrepresentable-") \/ StartsWith(b.err, "group-count-attribute-missing-") THEN "UBXTypeError"
+    ELSE "any"
 =============================================================================
